@@ -1323,3 +1323,125 @@ pub fn to_world(o: &GenOut) -> World {
 pub fn gen_world(rng: &mut Rng, p: Profile) -> World {
     to_world(&gen(rng, p))
 }
+
+// ------------------------------------------------------------------ W-zoo (C18, C04, C28): all type shapes
+
+/// Worlds over a zoo of type shapes the fragment does not have — scalars, tuples, arrays with concrete and
+/// generic lengths, const-generic structs, raw pointers, function pointers, references — rendered directly as
+/// chalk text. No reference model: used by equivalence checks (C18 filtered == unfiltered, C04, C28, C10).
+pub fn gen_zoo(rng: &mut Rng) -> World {
+    fn ty(rng: &mut Rng, depth: usize, tvars: &[String], cvars: &[String]) -> String {
+        if !tvars.is_empty() && rng.coin(30) {
+            return rng.pick(tvars).clone();
+        }
+        let leaf = |rng: &mut Rng| -> String { rng.pick(&["u32", "i32", "bool", "A", "B", "()"]).to_string() };
+        if depth == 0 {
+            return leaf(rng);
+        }
+        let n = |rng: &mut Rng, cvars: &[String]| -> String { if !cvars.is_empty() && rng.coin(50) { rng.pick(cvars).clone() } else { rng.pick(&["2", "3"]).to_string() } };
+        match rng.below(11) {
+            0 => format!("({}, {})", ty(rng, depth - 1, tvars, cvars), ty(rng, depth - 1, tvars, cvars)),
+            1 => format!("[{}; {}]", ty(rng, depth - 1, tvars, cvars), n(rng, cvars)),
+            2 => format!("S<{}>", n(rng, cvars)),
+            3 => format!("P<{}>", ty(rng, depth - 1, tvars, cvars)),
+            4 => format!("*const {}", ty(rng, depth - 1, tvars, cvars)),
+            5 => format!("*mut {}", ty(rng, depth - 1, tvars, cvars)),
+            6 => format!("fn({}) -> {}", ty(rng, depth - 1, tvars, cvars), ty(rng, depth - 1, tvars, cvars)),
+            7 => format!("Q<{}, {}>", ty(rng, depth - 1, tvars, cvars), ty(rng, depth - 1, tvars, cvars)),
+            8 => format!("[{}]", ty(rng, depth - 1, tvars, cvars)),
+            9 => format!("({},)", ty(rng, depth - 1, tvars, cvars)),
+            _ => leaf(rng),
+        }
+    }
+    let mut items: Vec<String> = vec![
+        "struct A { }".into(),
+        "struct B { }".into(),
+        "struct S<const N> { }".into(),
+        "struct P<T> { }".into(),
+        "struct Q<T, U> { }".into(),
+        "trait Tr { }".into(),
+        "trait Tr1<T> { }".into(),
+        "trait Mk { }".into(),
+    ];
+    for _ in 0..rng.range(3, 9) {
+        let nt = rng.below(3);
+        let nc = if rng.coin(35) { 1 } else { 0 };
+        let tv: Vec<String> = (0..nt).map(|i| format!("T{}", i)).collect();
+        let cv: Vec<String> = (0..nc).map(|i| format!("N{}", i)).collect();
+        let self_ty = ty(rng, 2, &tv, &cv);
+        let (tr, targ) = match rng.below(3) {
+            0 => ("Tr".to_string(), None),
+            1 => ("Mk".to_string(), None),
+            _ => ("Tr1".to_string(), Some(ty(rng, 1, &tv, &cv))),
+        };
+        let header = format!("{}{}", self_ty, targ.clone().unwrap_or_default());
+        // impl parameters must appear in the header
+        let tv: Vec<String> = tv.into_iter().filter(|v| header.contains(v.as_str())).collect();
+        let cv: Vec<String> = cv.into_iter().filter(|v| header.contains(v.as_str())).collect();
+        let mut gens: Vec<String> = tv.clone();
+        gens.extend(cv.iter().map(|c| format!("const {}", c)));
+        let wc = if !tv.is_empty() && rng.coin(35) { format!(" where {}: {}", rng.pick(&tv), rng.pick(&["Tr", "Mk"])) } else { String::new() };
+        items.push(format!(
+            "impl{} {}{} for {}{} {{ }}",
+            if gens.is_empty() { String::new() } else { format!("<{}>", gens.join(", ")) },
+            tr,
+            targ.map(|t| format!("<{}>", t)).unwrap_or_default(),
+            self_ty,
+            wc
+        ));
+    }
+    let mut goals = vec![];
+    for _ in 0..rng.range(5, 9) {
+        let net = rng.below(3);
+        let nec = if rng.coin(40) { 1 } else { 0 };
+        let ev: Vec<String> = (0..net).map(|i| format!("X{}", i)).collect();
+        let ec: Vec<String> = (0..nec).map(|i| format!("M{}", i)).collect();
+        let pred = |rng: &mut Rng, tv: &[String], cv: &[String]| -> String {
+            let t = ty(rng, 2, tv, cv);
+            match rng.below(3) {
+                0 => format!("{}: Tr", t),
+                1 => format!("{}: Mk", t),
+                _ => format!("{}: Tr1<{}>", t, ty(rng, 1, tv, cv)),
+            }
+        };
+        let mut body = pred(rng, &ev, &ec);
+        let (mut ev, mut ec) = (ev, ec);
+        if rng.coin(45) {
+            // hypothesis whose clause is filtered by could_match against the goal: either unrelated, or the goal's own
+            // predicate generalised (a const literal or a leaf type replaced by an unknown), so that it really unifies
+            let h = if rng.coin(60) {
+                let mut h = body.clone();
+                if rng.coin(50) {
+                    for lit in ["3", "2"] {
+                        if let Some(i) = h.find(lit) {
+                            h.replace_range(i..i + 1, "MH");
+                            ec.push("MH".into());
+                            break;
+                        }
+                    }
+                }
+                if !h.contains("MH") || rng.coin(30) {
+                    for leaf in ["u32", "i32", "bool"] {
+                        if let Some(i) = h.find(leaf) {
+                            h.replace_range(i..i + leaf.len(), "XH");
+                            ev.push("XH".into());
+                            break;
+                        }
+                    }
+                }
+                h
+            } else {
+                pred(rng, &ev, &ec)
+            };
+            body = format!("if ({}) {{ {} }}", h, body);
+        }
+        if rng.coin(25) {
+            body = format!("forall<F0> {{ {} }}", body.replacen("A", "F0", 1));
+        }
+        let mut q: Vec<String> = ev.clone();
+        q.extend(ec.iter().map(|c| format!("const {}", c)));
+        let used: Vec<String> = q.into_iter().filter(|v| body.contains(v.trim_start_matches("const "))).collect();
+        goals.push(if used.is_empty() { body } else { format!("exists<{}> {{ {} }}", used.join(", "), body) });
+    }
+    World { source: "wzoo".into(), items, goals }
+}
